@@ -311,11 +311,27 @@ def listener_queues(ctx, prog):
             h0 = mk_struct(prog, 'IoLoopHandle0', common=common, set_blocked_tx=SenderVal(sb), alloc_chan_req_tx=Unit(), alloc_chan_rep_rx=Unit())
             ch0 = mk_struct(prog, 'Channel0Handle', handle=h0, frame_max=Int(4088, 64))
             conn = mk_struct(prog, 'Connection', join_handle=mk_option(), channel0=ch0, server_properties=Agg({}, 'FieldTable', 'props'))
-            recv = Ref(Cell(conn, 'conn'))
+            st.roots['conn'] = Cell(conn, 'conn')
+            recv = Ref(st.roots['conn'])
             sink = sb
             st.roots['sink'] = sb
         if ty == 'Channel':
             st.roots['sink'] = sink
+        if ty == 'Connection':
+            # the registration queue towards the I/O thread still holds an earlier registration: the call may wait for room (or fail),
+            # but it may not return Ok having dropped the new listener
+            st_full = st.fork()
+            sbf = st_full.roots['sink']
+            sbf.queue.append(SenderVal(Chan('earlier.listener', None, True)))
+            for (s, rv) in ex.run(st_full, f, [Ref(st_full.roots['conn'])]):
+                new = s.roots.get('new_chans', [])
+                if isinstance(rv, Panic):
+                    okf = rv.kind == 'block'
+                else:
+                    okf = err_name(prog, rv) != 'Ok' or (len(new) == 1 and any(isinstance(x_, SenderVal) and x_.chan is new[0] for x_ in s.roots['sink'].queue))
+                m = ctx.decide(f"c13.listener-queue[{name},registration-queue-full]", s.pc, z3.BoolVal(bool(okf)), group='listen_* registers a fresh unbounded queue with the I/O thread and returns its receiving end')
+                if m is not None:
+                    bad.append((name, 'registration dropped while an earlier one is still queued', 1))
         for (s, rv) in ex.run(st, f, [recv]):
             new = s.roots.get('new_chans', [])
             sent = s.roots['sink'].queue
@@ -326,10 +342,50 @@ def listener_queues(ctx, prog):
             m = ctx.decide(f"c13.listener-queue[{name}]", s.pc, z3.BoolVal(bool(ok)), group='listen_* registers a fresh unbounded queue with the I/O thread and returns its receiving end')
             if m is not None:
                 bad.append((name, [getattr(c_, 'cap', '?') for c_ in new], len(sent)))
+    regbad = [b_ for b_ in bad if 'registration dropped' in str(b_[1])]
+    bad = [b_ for b_ in bad if b_ not in regbad]
+    if regbad:
+        ctx.report('listener-registration-lost', f"{regbad[0][0]}: {regbad[0][1]}", {'solver_counterexamples': [str(b_) for b_ in regbad]}, REGISTRATION_TEST,
+                   inject_into='src/io_loop/io_loop_handle.rs', profiles=('dev',), hang_is_violation=True)
     if bad:
         ctx.report('listener-queue', f"listener queue handed out by {bad[0][0]} is not a fresh unbounded queue: {bad[0]}", {'solver_counterexamples': [str(b_) for b_ in bad]},
                    LISTENER_TEST, profiles=('dev',), hang_is_violation=True)
 
+
+REGISTRATION_TEST = r"""
+use super::*;
+#[test]
+fn verif_replay_c13_registration() {
+    // the registration queue towards the I/O thread (capacity 1) still holds an earlier registration when a second listener is registered
+    let (c0tx, _c0rx) = mio_extras::channel::sync_channel(1);
+    let (_c0rtx, c0rrx) = crossbeam_channel::bounded(1);
+    let (sb_tx, sb_rx) = mio_extras::channel::sync_channel(1);
+    let (ar_tx, _ar_rx) = mio_extras::channel::sync_channel(1);
+    let (_rep_tx, rep_rx) = crossbeam_channel::bounded(1);
+    let mut h0 = IoLoopHandle0::new(IoLoopHandle::new(0, c0tx, c0rrx), sb_tx, ar_tx, rep_rx);
+    let (tx1, _rx1) = crossbeam_channel::unbounded();
+    h0.set_blocked_tx(tx1).unwrap();
+    let (tx2, rx2) = crossbeam_channel::unbounded();
+    let (done_tx, done_rx) = std::sync::mpsc::channel();
+    std::thread::spawn(move || { let r = h0.set_blocked_tx(tx2); let _ = done_tx.send(r.is_ok()); std::thread::sleep(std::time::Duration::from_millis(800)); drop(h0); });
+    std::thread::sleep(std::time::Duration::from_millis(300));
+    let first = sb_rx.try_recv().is_ok();     // the I/O thread gets round to the first registration
+    let returned = done_rx.recv_timeout(std::time::Duration::from_secs(3));
+    std::thread::sleep(std::time::Duration::from_millis(100));
+    let second = sb_rx.try_recv();
+    let mut bad: Vec<String> = Vec::new();
+    if !first { bad.push("first-registration-missing".into()); }
+    match returned {
+        Ok(true) => match second {
+            Ok(tx) => { let _ = tx.send(crate::ConnectionBlockedNotification::Unblocked); if rx2.try_recv().is_err() { bad.push("second-listener-not-connected".into()); } }
+            Err(_) => bad.push("returned-Ok-but-the-registration-never-reached-the-queue".into()),
+        },
+        Ok(false) => (),   // an error is acceptable: the caller knows
+        Err(_) => bad.push("HANG".into()),
+    }
+    if bad.is_empty() { println!("VERIF-REPLAY-OK"); } else { println!("VERIF-REPLAY-VIOLATION listener-registration-lost {}", bad.join(";")); }
+}
+"""
 
 LISTENER_TEST = r"""
 use amq_protocol::frame::{AMQPFrame, gen_frame};
@@ -346,7 +402,7 @@ fn read_frame(s: &mut std::net::TcpStream) -> Option<AMQPFrame> {
 #[test]
 fn verif_replay_c13_listeners() {
     // a slow listener: N notices of each kind arrive before the application reads any of them
-    const N: usize = 40;
+    const N: usize = 5000;
     let l = std::net::TcpListener::bind("127.0.0.1:0").unwrap();
     let port = l.local_addr().unwrap().port();
     let server = std::thread::spawn(move || {
